@@ -595,6 +595,14 @@ _more("C24", "Added (C24-read-resume): every store of a READING state to evcon->
 _more("C26", "Added (C26-reply-start): evhttp_send_reply_start evaluated over caller-set Content-Length x HTTP version x body/no body x the value req->chunked held before (a chunked request body "
       "leaves 1): Transfer-Encoding: chunked is added exactly when it should be, and req->chunked afterwards says exactly whether it was — chunk framing is never written unannounced.")
 _more("C29", "Added: escaped question marks (%3F) in the decoder domain — only a literal '?' starts the query part in the deprecated mode.")
+_more("C32", "Added (C32-frame-atomic): a frame queued with more than one addition to the output buffer (header, payload) is queued under the bufferevent lock — the multi-part emitter locks "
+      "itself or every call of it lies between bufferevent_lock and bufferevent_unlock (lock dominates, no unlock in between, unlock on every way out).", "lock bracket around multi-part emission (K1/K3)")
+_more("C33", "Added: name_parse is evaluated in byte memory on names that run into compression-pointer cycles without labels (self-pointer, two- and three-pointer cycles, a cycle behind a "
+      "label) plus an ordinary compressed name as control: it has to return -1; an evaluation that reaches the same state again is a proof of non-termination.")
+_more("C34", "Added (C34-id-bucket): every store of a transaction id into a request happens while the request is linked in no bucket (a new request, or evdns_request_remove dominates), and is "
+      "followed on every path by evdns_request_insert/request_submit — the id decides the bucket in-flight requests are found in.", "who-may-store + must-pass-through (K3/K5)")
+_more("C36", "Added (C36-name-format): every evutil_snprintf of a number-built name into a fixed local buffer of evdns.c fits in the worst case of its conversions (argument ranges from casts and "
+      "masks), terminator included — a truncated reverse name is a query for another name.")
 _more("C04", "Added (C04-evmap): the reader/writer counts of an fd are stored only after the backend accepted the add (C05's rule, run here as well) — counts stored before a failing "
       "backend add make the next add believe the fd is registered, and the backend is never told about events this property promises to deliver.")
 _more("C35", "Added: the compression-table lookup is decided by evaluation — on every table of up to three distinct names (prefixes and suffixes of one another) and seven looked-up names the "
